@@ -101,7 +101,7 @@ def sizeBounds (extensed : Bool) (lbP ubP : Option Int) : Int × Int × Int :=
     let lb : Int := lbP.getD 0
     match ubP with
     | none => (lb, -1, -1)
-    | some ub => (lb, ub, if ub > 65535 then -1 else ub - lb + 1)
+    | some ub => (if ub > 65535 then 0 else lb, ub, if ub > 65535 then -1 else ub - lb + 1)
 
 /-- `parseBitString` → (bytes, bit length). The decoded octets are masked to the bit length
     (the repair of F17: the Go code returned whole input octets, unused bits included). -/
@@ -329,9 +329,8 @@ def sliceCountWith (lb sizeRange : Int) : D Nat :=
       (lb.toNat, if sizeRange > 255 ∧ r.pos % 8 > 0 ∧ k ≤ r.len then ⟨r.rest.drop k, r.pos + k, r.len - k⟩ else r))
   else if sizeRange = 1 then pure lb.toNat
   else do
-    parseAlignBits
-    let b ← takeOctets 1
-    pure (b.headD 0).toNat
+    let (n, rep) ← parseLength (-1)
+    if rep then D.fail .error else pure n         -- fragmented counts are refused
 
 def sliceCount (params : Params) (sizeExt : Bool) : D Nat :=
   let lb : Int := match params.sizeLB with | some l => if l < 65536 then l else 0 | none => 0
@@ -341,7 +340,7 @@ def sliceCount (params : Params) (sizeExt : Bool) : D Nat :=
     | none => -1
   sliceCountWith lb sizeRange
 
-def stripSize (params : Params) : Params := { params with sizeExt := false, sizeUB := none, sizeLB := none }
+abbrev stripSize := stripSizeE
 
 /-- struct case of parseField: SEQUENCE, CHOICE or open type. `f` is parseField on the component types,
     `rfv` is getReferenceFieldValue, `zero` the Go zero value. -/
